@@ -11,6 +11,7 @@ EXPLANATION = (
     "the transfer over the contract call with `?`-propagation; crate-wide provenance of every `&BlockInfo` argument "
     "(only the enclosing function's block parameter or App.block); Env construction; one address per call in "
     "with_storage/with_storage_readonly and at the five dispatch sites. Rollback of the transfer follows from C01/C02."
+    " (R3 addition) set_block / update_block make their argument / the action's result the current block on every path (the store dominates every return, in place or on a stored-back copy). (R5) the sub-message sender chain of C03.R3 and (R6) the sub-message cache of C02.R1 are re-stated under C05's id (emitting contract as sender; attached funds returned when an absorbed call fails)."
 )
 TRUSTED = ["rustc MIR construction", "cwmt-facts driver", "vlib (provenance, dominators)", "C01.R2, C02.R1 (rollback)",
            "C09 (overdraft fails)"]
